@@ -53,6 +53,8 @@ def vivo_script(c, B, s):
     tok = "c%06d" % c["id"]
     s.fork(c["id"])
     s.conf(vivo_conf(c, B.work))
+    if c["mut"]:
+        s.raw("uid 12345 12345 12345")      # byte-mutated files may name arbitrary output paths: do not write them as root
     ek = c["envk"]
     if ek == "normal":
         env = [b"HOME=/root", b"LOGNAME=root", b"PATH=/bin", b"SUDO_USER=su", ("rep", 1, b"BIG=" + b"B" * c["big"]), ("rep", 1, b"P4K=" + b"p" * c["p4k"])]
@@ -278,6 +280,85 @@ def vitro_check(c, evs, B):
         B.F.violation("C02:length-out-of-range", "%s: parsed length %d outside [255, 1048575]" % (what, v["ret"]), dict(case=cj))
 
 
+# ------------------------------------------------------------------ coverage-guided arm (libFuzzer, clang build)
+
+def fuzz_job(arg):
+    import random
+    import shutil
+    import subprocess
+    from vlib.common import SYSCONF, VERIF
+    exe, idx, runs, seed, root = arg
+    work = os.path.join(root, "f%02d" % idx)
+    conf = os.path.join(work, "conf")
+    corpus = os.path.join(work, "corpus")
+    os.makedirs(conf, exist_ok=True)
+    os.makedirs(corpus, exist_ok=True)
+    for d in (work, conf, corpus):
+        os.chmod(d, 0o777)
+    rng = random.Random(seed)
+    for i in range(150):
+        data = ini_gen.gen_ini(rng, work)
+        if rng.random() < 0.3:
+            data = ini_gen.mutate(rng, data)
+        with open(os.path.join(corpus, "seed%03d" % i), "wb") as f:
+            f.write(bytes([rng.randrange(256) for _ in range(3)]) + data[:4000])
+    env = {"PATH": "/usr/bin:/bin", "VFUZZ_CONF": conf, "VFUZZ_SYSCONF": SYSCONF, "VFUZZ_WORK": work,
+           "ASAN_OPTIONS": "detect_leaks=0:abort_on_error=0:allocator_may_return_null=1", "UBSAN_OPTIONS": "print_stacktrace=1:halt_on_error=1"}
+    try:
+        r = subprocess.run([exe, "-runs=%d" % runs, "-seed=%d" % seed, "-max_len=4096", "-timeout=20", "-rss_limit_mb=4096", "-artifact_prefix=" + work + "/", "-print_final_stats=1", corpus],
+                           env=env, capture_output=True, timeout=3600, cwd=work)
+    except subprocess.TimeoutExpired:
+        shutil.rmtree(work, ignore_errors=True)
+        return dict(idx=idx, inconclusive=1)
+    err = r.stderr.decode("latin-1")
+    import re
+    m = re.search(r"stat::number_of_executed_units:\s+(\d+)", err)
+    execs = int(m.group(1)) if m else 0
+    cov = re.findall(r"cov: (\d+)", err)
+    out = dict(idx=idx, rc=r.returncode, execs=execs, cov=int(cov[-1]) if cov else 0)
+    arts = [f for f in os.listdir(work) if f.startswith(("crash-", "timeout-", "oom-", "leak-"))]
+    if r.returncode != 0:
+        out["report"] = err[-6000:]
+        if arts:
+            with open(os.path.join(work, arts[0]), "rb") as f:
+                out["artifact"] = f.read()[:5000].decode("latin-1")
+            out["artifact_kind"] = arts[0].split("-")[0]
+    shutil.rmtree(work, ignore_errors=True)
+    return out
+
+
+def fuzz_arm(tr, F, tot):
+    import subprocess
+    from vlib.common import VERIF, mkwork, rmwork
+    fb = vbuild.build("fuzz")
+    exe = os.path.join(fb.dir, "vfuzz")
+    src = os.path.join(VERIF, "harness", "vfuzz.c")
+    if not os.path.exists(exe) or os.stat(exe).st_mtime < os.stat(src).st_mtime:
+        c = subprocess.run(["clang", "-O1", "-g", "-fno-omit-frame-pointer", "-fsanitize=fuzzer,address,undefined", "-fno-sanitize=object-size", "-fno-sanitize-recover=all",
+                            "-o", exe, src, fb.archive, "-lpthread", "-ldl"], capture_output=True, text=True)
+        if c.returncode != 0:
+            raise Harness("cannot link the libFuzzer target: " + c.stderr[-800:])
+    root = mkwork("c02f")
+    os.chmod(root, 0o777)
+    rng = rng_for(PROP, "fuzz" + tr)
+    nproc, runs = (4, 15000) if tr == "quick" else (16, 150000)
+    jobs = [(exe, i, runs, rng.randrange(1, 2**31), root) for i in range(nproc)]
+    from vlib.drive import pmap
+    for o in pmap(fuzz_job, jobs, nproc):
+        tot["fuzz.execs"] = tot.get("fuzz.execs", 0) + o.get("execs", 0)
+        tot["fuzz.max_cov"] = max(tot.get("fuzz.max_cov", 0), o.get("cov", 0))
+        if o.get("inconclusive"):
+            tot["fuzz.inconclusive"] = tot.get("fuzz.inconclusive", 0) + 1
+            continue
+        if o["rc"] != 0:
+            rep = o.get("report", "")
+            kind = o.get("artifact_kind", "crash")
+            key = san_key(rep) if ("Sanitizer" in rep or "runtime error" in rep) else kind
+            F.violation("C02:fuzz:%s" % key, "libFuzzer target (config bytes -> full logging action) failed: %s" % key, dict(report=rep, config_with_3_steering_bytes=o.get("artifact")))
+    rmwork(root)
+    tot["fuzz.builds"] = fb.treehash
+
+
 def main():
     t0 = time.time()
     tr = tier()
@@ -303,6 +384,9 @@ def main():
     merge_findings(F, f)
     for k, v in st.items():
         tot["vitro." + k] = v
+    fuzz_arm(tr, F, tot)
+    if (tot.get("fuzz.execs", 0) == 0) and F.n_unlisted() == 0:
+        raise Harness("libFuzzer arm executed nothing: %s" % tot)
     if (tot.get("asan.vivo_real", 0) == 0 or tot.get("vitro.vitro_ds", 0) == 0) and F.n_unlisted() == 0:
         raise Harness("monitor observed too little: %s" % tot)
     inconc = sum(v for k, v in tot.items() if k.endswith("inconclusive"))
